@@ -55,6 +55,12 @@ func getSubnetsHkdf(sc genericSubnetConfig, seed []byte, weighted bool) ([]*phan
 			choices = append(choices, cjSubnet)
 		}
 
+		// rand.Int panics for a non-positive bound: a configuration whose usable
+		// groups all have weight 0 must fail the selection, not crash the caller.
+		if totWeight <= 0 {
+			return nil, ErrMissingAddrs
+		}
+
 		// Sort choices ascending
 		sort.Slice(choices, func(i, j int) bool {
 			return choices[i].GetWeight() < choices[j].GetWeight()
